@@ -1,0 +1,18 @@
+//! Verification hooks (feature `verif-hooks`): read-only views of the two segments.
+use super::SegmentedCache;
+use crate::lru::RawLRU;
+use crate::DefaultEvictCallback;
+
+impl<K, V, FH, RH> SegmentedCache<K, V, FH, RH> {
+    /// The probationary segment.
+    #[doc(hidden)]
+    pub fn verif_probationary(&self) -> &RawLRU<K, V, DefaultEvictCallback, RH> {
+        &self.probationary
+    }
+
+    /// The protected segment.
+    #[doc(hidden)]
+    pub fn verif_protected(&self) -> &RawLRU<K, V, DefaultEvictCallback, FH> {
+        &self.protected
+    }
+}
